@@ -82,16 +82,25 @@ func (fx *FuncExec) execCall(st *State, instr ssa.Instruction, c *ssa.CallCommon
 	}
 	fx.callOrd[short]++
 	ord := fx.callOrd[short]
-	if fx.fc != nil && fx.discard == 0 {
+	if fx.callNames == nil {
+		fx.callNames = map[ssa.Instruction]string{}
+	}
+	fx.callNames[instr] = short
+	if fx.callOrdStatic != nil {
+		// ordinals follow source order (computed after the first discovery pass)
+		if o, ok := fx.callOrdStatic[instr]; ok {
+			ord = o
+		}
+	}
+	if fx.fc != nil {
 		for _, cs := range fx.fc.Calls {
 			if cs.Callee == short && cs.Ordinal == ord {
 				env := fx.specEnv(st, fx.entry)
 				env.callArgs = args
 				for _, a := range cs.Asserts {
+					// evaluated in the discovery passes too (heap keys), obliged only in the real pass
 					fx.oblige("assert@call", st, fx.evalBool(env, a), fmt.Sprintf("at call %s#%d: %s", short, ord, a.Text), instr.Pos())
 				}
-				cs.Ordinal = -cs.Ordinal // mark used
-				defer func(cs *CallSiteSpec) { cs.Ordinal = -cs.Ordinal }(cs)
 				fx.usedCallSites[cs] = true
 			}
 		}
